@@ -658,6 +658,16 @@ int main(int argc, char **argv)
     signal(SIGABRT, on_signal);
     signal(SIGSEGV, on_signal);
     signal(SIGALRM, on_signal);
+    /* self-test of the wait detector: a deliberate sleep inside a watched call must be counted (the check requires it) */
+    {
+	struct timespec ts = { 0, 1000 };
+	CALL_BEGIN(1);
+	nanosleep(&ts, NULL);
+	struct pollfd pp = { .fd = 0, .events = 0 };
+	poll(&pp, 0, 1);
+	CALL_END();
+	fprintf(out, "{\"x\":0,\"n\":0,\"op\":\"selftest\",\"e\":0,\"w\":%d}\n", shim_wait_seen());
+    }
     char line[256];
     while (fgets(line, sizeof(line), in)) {
 	long seed = 1;
